@@ -131,3 +131,6 @@ META = dict(
     assumptions=["denominators are assumed non-zero here (zero cases are C09's and return documented limit values)", "volume > 0 for VWAP", "deviation must exceed 1e-6*(1+|ref|) and reproduce on the real code"],
     explanation="library readings vs independent definitions as z3 terms; warm-up index and None pattern compared exactly",
 )
+
+# families added after the seeding rounds (kept next to the original bound so that MANIFEST / evidence stay current)
+META["bounds"] = dict(META["bounds"], quick=META["bounds"]["quick"] + "; added after the seeding rounds: " + 'swap-input, sibling instances, calculate_index(older)-then-append, live under a 3-5 minute lifespan')
